@@ -11,8 +11,8 @@ func init() {
 	}
 	add("C01",
 		Mutation{Name: "benign-with-window-in-helper", File: "cypher/models/pgsql/translate/query.go",
-			Old: "\t\tif len(part.SortItems) > 0 {\n\t\t\tnextCTE.Query.OrderBy = part.SortItems\n\t\t}\n\n\t\tif part.Skip != nil {\n\t\t\tnextCTE.Query.Offset = part.Skip\n\t\t}\n\n\t\tif part.Limit != nil {\n\t\t\tnextCTE.Query.Limit = part.Limit\n\t\t}\n",
-			New: "\t\tapplyPartWindow(&nextCTE.Query, part)\n",
+			Old:  "\t\tif len(part.SortItems) > 0 {\n\t\t\tnextCTE.Query.OrderBy = part.SortItems\n\t\t}\n\n\t\tif part.Skip != nil {\n\t\t\tnextCTE.Query.Offset = part.Skip\n\t\t}\n\n\t\tif part.Limit != nil {\n\t\t\tnextCTE.Query.Limit = part.Limit\n\t\t}\n",
+			New:  "\t\tapplyPartWindow(&nextCTE.Query, part)\n",
 			Also: []Edit{{"cypher/models/pgsql/translate/query.go", "func (s *Translator) buildMultiPartQuery(", "func applyPartWindow(query *pgsql.Query, part *QueryPart) {\n\tif len(part.SortItems) > 0 {\n\t\tquery.OrderBy = part.SortItems\n\t}\n\n\tif part.Skip != nil {\n\t\tquery.Offset = part.Skip\n\t}\n\n\tif part.Limit != nil {\n\t\tquery.Limit = part.Limit\n\t}\n}\n\nfunc (s *Translator) buildMultiPartQuery("}}},
 		Mutation{Name: "benign-regex-exclusion-by-early-break", File: "cypher/models/pgsql/translate/expression.go",
 			Old: "\t\t\t\tif expression.Operator != pgsql.OperatorRegexMatch {\n\t\t\t\t\tif rewrittenROperand, err := rewriteStringWildCardLiteral(expression.ROperand); err != nil {\n\t\t\t\t\t\treturn err\n\t\t\t\t\t} else {\n\t\t\t\t\t\texpression.ROperand = rewrittenROperand\n\t\t\t\t\t}\n\t\t\t\t}\n",
@@ -60,8 +60,8 @@ func init() {
 	)
 	add("C20",
 		Mutation{Name: "benign-seen-paths-as-bool-map", File: "retriever/types.go",
-			Old: "\t\t\tif _, seen := seenPaths[cleanPath]; seen {\n\t\t\t\treturn fmt.Errorf(\"manifest lists file %q more than once\", fileEntry.Path)\n\t\t\t}\n\n\t\t\tseenPaths[cleanPath] = struct{}{}\n",
-			New: "\t\t\tif seenTwice[cleanPath] {\n\t\t\t\treturn fmt.Errorf(\"manifest lists file %q more than once\", fileEntry.Path)\n\t\t\t}\n\n\t\t\tseenTwice[cleanPath] = true\n",
+			Old:  "\t\t\tif _, seen := seenPaths[cleanPath]; seen {\n\t\t\t\treturn fmt.Errorf(\"manifest lists file %q more than once\", fileEntry.Path)\n\t\t\t}\n\n\t\t\tseenPaths[cleanPath] = struct{}{}\n",
+			New:  "\t\t\tif seenTwice[cleanPath] {\n\t\t\t\treturn fmt.Errorf(\"manifest lists file %q more than once\", fileEntry.Path)\n\t\t\t}\n\n\t\t\tseenTwice[cleanPath] = true\n",
 			Also: []Edit{{"retriever/types.go", "\tseenPaths := map[string]struct{}{}\n", "\tseenTwice := map[string]bool{}\n"}}},
 	)
 }
